@@ -938,7 +938,8 @@ class Run:
             elif self.scope == "fieldlines":
                 # every line of the field implementations and of the generic __set__ / _validate / __setattr__ code
                 r = 1 if (os.sep + "fields" + os.sep in fn or os.sep + "extfields" + os.sep in fn
-                          or code.co_name in ("__set__", "_validate", "__setattr__", "deserialize", "serialize")) else 0
+                          or code.co_name in ("__set__", "_validate", "__setattr__", "deserialize", "serialize")
+                          or "uniqueness" in code.co_name) else 0
             elif self.scope == "serlines":
                 # the code that runs ON a shared SerializableField object: extfields/, every deserialize / serialize method
                 r = 1 if (os.sep + "extfields" + os.sep in fn or code.co_name in ("deserialize", "serialize")
@@ -1305,6 +1306,95 @@ def sample_runs(case, max_pre, nsched, rng):
     return runs
 
 
+# ------------------------------------------------------------------ dynamic probe: who writes shared Field objects?
+
+
+def reachable_fields(sh):
+    out, seen = [], set()
+
+    def walk(f):
+        if f is None or id(f) in seen or not isinstance(f, Field):
+            return
+        seen.add(id(f))
+        out.append(f)
+        its = getattr(f, "items", None)
+        for x in (its if isinstance(its, (list, tuple)) else [its]):
+            walk(x)
+        for x in getattr(f, "_fields", None) or []:
+            walk(x)
+        ty = getattr(f, "_ty", None)
+        if isinstance(ty, type) and issubclass(ty, Structure):
+            for g in ty.get_all_fields_by_name().values():
+                walk(g)
+    for c in sh.classes:
+        for f in c.get_all_fields_by_name().values():
+            walk(f)
+    return out
+
+
+def probe_writers(case):
+    """run the operations of the case ONE AFTER THE OTHER under a line tracer and report every typedpy line after which the
+    attribute dictionary of a Field object reachable from the classes had changed: [(relative path, function, line)].
+    Independent of the translator: whatever idiom performs the write (setattr, assignment, __dict__, object.__setattr__,
+    a container method), the change is seen."""
+    sh = run_shape(case["shape"])
+    reset_caches(sh)
+    run_history(case, sh)
+    objs = reachable_fields(sh)
+
+    def atom(v):
+        if isinstance(v, (str, int, float, bool, type(None))):
+            return v
+        if isinstance(v, (dict, list, set)):
+            return (id(v), len(v))
+        return id(v)
+
+    def digest():
+        return [sorted((k, atom(v)) for k, v in vars(o).items()) for o in objs]
+    state = {"d": digest(), "prev": None}
+    writers = set()
+
+    def local(frame, event, arg):
+        if event in ("line", "return"):
+            d = digest()
+            if d != state["d"]:
+                if state["prev"]:
+                    writers.add(state["prev"])
+                state["d"] = d
+            if event == "line":
+                state["prev"] = (os.path.relpath(frame.f_code.co_filename, REPO), frame.f_code.co_name, frame.f_lineno)
+        return local
+
+    def g(frame, event, arg):
+        return local if frame.f_code.co_filename.startswith(TP) else None
+    base = get_modes()
+    set_modes(case.get("modes", {}))
+    try:
+        ops = build_ops(case, sh)
+        sys.settrace(g)
+        try:
+            for op in ops:
+                outcome_of(op)
+        finally:
+            sys.settrace(None)
+    finally:
+        set_modes(base)
+    return sorted(writers)
+
+
+_PROBED_SHAPES = set()
+
+
+def untabled_writers(writers):
+    """dynamic writers that no row of the shared-write table covers (same file, same function, line inside it)"""
+    out = []
+    for path, func, line in writers:
+        if not any(r["path"] == path and r["func"].split(".")[-1] == func and
+                   r.get("first_line", 0) <= line <= r.get("last_line", 10 ** 9) for r in ROWS):
+            out.append([path, func, line])
+    return out
+
+
 # ------------------------------------------------------------------ model side
 
 
@@ -1421,8 +1511,14 @@ def run_impl(case):
                            "msched": msched, "events": per_thread, "count": 0,
                            "wsites": sorted({(r.cell_ids.get(oid, -1), key) for key, oid, _, _ in r.writes}) if stream == "A" else None}
         distinct[k]["count"] += 1
+    # the dynamic probe runs for every stream-A case and once per shape (and operation mix) for the other streams
+    pkey = (case["shape"], tuple(sorted(th["op"] for th in case["threads"])), json.dumps(case.get("modes", {}), sort_keys=True))
+    gaps = []
+    if stream == "A" or pkey not in _PROBED_SHAPES:
+        _PROBED_SHAPES.add(pkey)
+        gaps = untabled_writers(probe_writers(case))
     return {"seq": seq, "allowed": allowed, "vectors": vectors, "runs": len(runs), "nonseq": nonseq,
-            "outcomes": list(distinct.values())}
+            "outcomes": list(distinct.values()), "untabled": gaps}
 
 
 def line(case, impl):
@@ -1436,6 +1532,11 @@ def line(case, impl):
 
 
 def correspondence(case, impl, model):
+    if impl.get("untabled"):
+        # the tie between the translator and the code: a write to a shared Field object that the AST scan did not list
+        return ("shared Field object written at " + ", ".join(f"{p}:{l} ({f})" for p, f, l in impl["untabled"]) +
+                " but the shared-write table has no row for that function (translator gap: the model would treat the "
+                "object as private)")
     if case["stream"] != "A":
         return None
     sh = shape(case["shape"])
@@ -1863,7 +1964,8 @@ def gen_cases(rng, tier, scale=1.0):
                       "cap": 400, "yield": "serlines",
                       "history": [{"op": rng.choice(["construct", "deserialize"]), "kw": dict(hist, n=0)}]})
     # is_unique fields with the uniqueness feature switched on: EQUAL (and different) values in the threads; every line of
-    # the registry function (translator row) is a yield point; the result VECTOR must be that of one sequential order
+    # the field implementations and of the registry functions is a yield point (independent of the table); the result
+    # VECTOR must be that of one sequential order
     for k in range(1 if quick else 4):
         ths = []
         same = "id%d" % rng.randint(0, 2)
@@ -1872,7 +1974,7 @@ def gen_cases(rng, tier, scale=1.0):
             ths.append({"op": rng.choice(["construct", "deserialize"]),
                         "kw": {"ssid": same if (k % 2 == 0 or i == 0) else "other%d" % i, "n": _int(rng, 0.0)}})
         cases.append({"stream": "E", "shape": "unique_field", "threads": ths, "sseed": rng.randrange(1 << 30), "max_pre": 1,
-                      "cap": 300, "yield": "sitelines", "modes": {"uniqueness_features_enabled": True}})
+                      "cap": 120 if quick else 300, "yield": "fieldlines", "modes": {"uniqueness_features_enabled": True}})
     # BYTECODE-level pre-emption inside the functions of the shared-write table (CPython's real granularity): every
     # attribute / item / global access and call of a site function is a yield point; exhaustive for one pre-emption
     # (quick) / two (thorough); oracle only
